@@ -23,6 +23,10 @@ class ExtractError(Exception):
     """anything that means 'the machinery cannot see the code it expects' (exit 2)"""
 
 
+class LostAnchor(ExtractError):
+    """a contract annotation refers to a closure / loop / let / call the function body no longer has"""
+
+
 # --------------------------------------------------------------------------- items
 
 def load_toml(path):
@@ -679,14 +683,25 @@ def split_signature(ftoks, fn_kw, body_open):
     return {"params_close": pc, "ret": ret, "where": where}
 
 
-def emit_fn(em, fid, ftoks, fn_kw, body_open, body_close, contract, indent="    "):
-    """write one function: copied tokens + annotation regions"""
+def emit_fn(em, fid, ftoks, fn_kw, body_open, body_close, contract, indent="    ", force_external=None, degraded=None):
+    """write one function: copied tokens + annotation regions.
+    force_external: reason string -> the body is dropped and the contract assumed (function outside the verifier's reach)"""
     c = contract
+    if force_external is None and c is not None and not c.external_body:
+        # dry run: do all annotation anchors still resolve?
+        try:
+            _annotate_body(Emitter(), fid, ftoks[body_open + 1:body_close], c, indent)
+        except LostAnchor as e:
+            force_external = str(e)
+    if force_external is not None and degraded is not None:
+        degraded[fid] = force_external
     first_line = em.line
+    if c is None and force_external is not None:
+        em.w(f"{indent}{A_OPEN}#[verifier::external_body]{A_CLOSE}\n")
     if c is not None:
         for a in c.attrs:
             em.w(f"{indent}{A_OPEN}{a}{A_CLOSE}\n")
-        if c.external_body:
+        if c.external_body or force_external is not None:
             em.w(f"{indent}{A_OPEN}#[verifier::external_body]{A_CLOSE}\n")
     em.w(indent)
     sp = split_signature(ftoks, fn_kw, body_open)
@@ -709,7 +724,11 @@ def emit_fn(em, fid, ftoks, fn_kw, body_open, body_close, contract, indent="    
         em.w(f"\n{indent}    {A_OPEN}")
         em.clause(f"{fid}::prologue", _indent_block(c.prologue.rstrip("\n"), indent + "    "))
         em.w(f"{indent}    {A_CLOSE}")
-    if c is not None and c.external_body:
+    if force_external is not None:
+        if c is None:
+            em.w(f"{indent}{A_OPEN}#[verifier::external_body]{A_CLOSE}\n" if False else "")
+        em.w(f" {A_OPEN}unimplemented!() /* DEGRADED: {force_external[:160].replace('*/', '* /')} */{A_CLOSE} ")
+    elif c is not None and c.external_body:
         # assumed contract: the body is neither verified nor compiled; it is dropped from the unit
         em.w(f" {A_OPEN}unimplemented!() /* body not under contract: assumed */{A_CLOSE} ")
     else:
@@ -747,7 +766,7 @@ def _annotate_body(em, fid, body, c, indent):
     for k in list(cl_ann.keys()):
         if isinstance(k, int):
             if k >= len(closures):
-                raise ExtractError(f"{fid}: contract annotates closure #{k} but the body has {len(closures)} (lost anchor)")
+                raise LostAnchor(f"{fid}: contract annotates closure #{k} but the body has {len(closures)} (lost anchor)")
             resolved[k] = cl_ann[k]
         else:
             names, ordn = k.split("#")
@@ -755,13 +774,13 @@ def _annotate_body(em, fid, body, c, indent):
             hits = [ci for ci, (hs, he, bs, be, ib) in enumerate(closures)
                     if (_closure_param_names(body[hs + 1:he - 1]) if body[hs].text == "|" else []) == want]
             if int(ordn) >= len(hits):
-                raise ExtractError(f"{fid}: contract annotates closure `{k}` but the body has {len(hits)} closures binding {want} (lost anchor)")
+                raise LostAnchor(f"{fid}: contract annotates closure `{k}` but the body has {len(hits)} closures binding {want} (lost anchor)")
             cl_ann[k]["label"] = "_" + k.replace(",", "_").replace("#", "").replace("()", "unit")
             resolved[hits[int(ordn)]] = cl_ann[k]
     cl_ann = resolved
     for k in lp_ann:
         if k >= len(loops):
-            raise ExtractError(f"{fid}: contract annotates loop #{k} but the body has {len(loops)} (lost anchor)")
+            raise LostAnchor(f"{fid}: contract annotates loop #{k} but the body has {len(loops)} (lost anchor)")
     # events: position -> action
     ins_before = {}   # token index -> list of (kind, payload)
     skip = set()
@@ -807,21 +826,21 @@ def _annotate_body(em, fid, body, c, indent):
                     if body[q].kind == "ident" and body[q].text == nm:
                         named.append((li, lj))
                 if k >= len(named):
-                    raise ExtractError(f"{fid}: ghost anchor `let {nm}`#{k} but the body has {len(named)} such let statements (lost anchor)")
+                    raise LostAnchor(f"{fid}: ghost anchor `let {nm}`#{k} but the body has {len(named)} such let statements (lost anchor)")
                 ins_after.setdefault(named[k][1], []).append(("ghost", (gi, g)))
             elif g["kind"] == "after let":
                 if k >= len(lets):
-                    raise ExtractError(f"{fid}: ghost anchor let#{k} but the body has {len(lets)} let statements (lost anchor)")
+                    raise LostAnchor(f"{fid}: ghost anchor let#{k} but the body has {len(lets)} let statements (lost anchor)")
                 ins_after.setdefault(lets[k][1], []).append(("ghost", (gi, g)))
             elif g["kind"] == "wrap selfcall":
                 if k >= len(calls):
-                    raise ExtractError(f"{fid}: ghost anchor selfcall#{k} but the body has {len(calls)} self calls (lost anchor)")
+                    raise LostAnchor(f"{fid}: ghost anchor selfcall#{k} but the body has {len(calls)} self calls (lost anchor)")
                 ins_before.setdefault(calls[k][0], []).insert(0, ("raw", f"{A_OPEN}{{ let {g['name']} = {A_CLOSE}"))
                 ins_after.setdefault(calls[k][1], []).append(("wrapclose", (gi, g)))
             elif g["kind"].startswith("wrap method "):
                 mc = find_methodcalls(body, g["kind"].split()[2])
                 if k >= len(mc):
-                    raise ExtractError(f"{fid}: ghost anchor {g['kind']}#{k} but the body has {len(mc)} such calls (lost anchor)")
+                    raise LostAnchor(f"{fid}: ghost anchor {g['kind']}#{k} but the body has {len(mc)} such calls (lost anchor)")
                 ins_before.setdefault(mc[k][0], []).insert(0, ("raw", f"{A_OPEN}{{ let {g['name']} = {A_CLOSE}"))
                 ins_after.setdefault(mc[k][1], []).append(("wrapclose", (gi, g)))
             elif g["kind"].startswith("after call "):
@@ -846,19 +865,19 @@ def _annotate_body(em, fid, body, c, indent):
                         if m < len(body):
                             hits.append(m)
                 if k >= len(hits):
-                    raise ExtractError(f"{fid}: ghost anchor `call {nm}`#{k} but the body has {len(hits)} such statements (lost anchor)")
+                    raise LostAnchor(f"{fid}: ghost anchor `call {nm}`#{k} but the body has {len(hits)} such statements (lost anchor)")
                 ins_after.setdefault(hits[k], []).append(("ghost", (gi, g)))
             elif g["kind"] == "loop_pre":
                 if k >= len(loops):
-                    raise ExtractError(f"{fid}: ghost anchor loop#{k} but the body has {len(loops)} loops (lost anchor)")
+                    raise LostAnchor(f"{fid}: ghost anchor loop#{k} but the body has {len(loops)} loops (lost anchor)")
                 ins_before.setdefault(loops[k][0], []).insert(0, ("ghostraw", (gi, g)))
             elif g["kind"] == "loop_post":
                 if k >= len(loops):
-                    raise ExtractError(f"{fid}: ghost anchor loop#{k} but the body has {len(loops)} loops (lost anchor)")
+                    raise LostAnchor(f"{fid}: ghost anchor loop#{k} but the body has {len(loops)} loops (lost anchor)")
                 ins_after.setdefault(L.match_close(body, loops[k][1]), []).append(("ghost", (gi, g)))
             elif g["kind"] == "loop_tail":
                 if k >= len(loops):
-                    raise ExtractError(f"{fid}: ghost anchor loop#{k} but the body has {len(loops)} loops (lost anchor)")
+                    raise LostAnchor(f"{fid}: ghost anchor loop#{k} but the body has {len(loops)} loops (lost anchor)")
                 ins_before.setdefault(L.match_close(body, loops[k][1]), []).append(("ghostraw", (gi, g)))
     for i, t in enumerate(body + [Tok("ws", "", -1)]):
         for kind, payload in ins_before.get(i, []):
